@@ -356,20 +356,29 @@ def reexport_table(ctx: Ctx, col: Collector) -> None:
     a_in = lambda k: k.startswith("<Q> in {")  # noqa: E731
     a_none = lambda k: k in ("<A>==None", "None==<A>")  # noqa: E731
     a_priv = lambda k: k == "truthy:.startswith(<A>, '_')"  # noqa: E731
-    for ni in (True, False):
-        for pk, pobj in parents.items():
-            t = verdicts(n1, e1, {"not_internal": Const(ni), "parent": pobj}, qi, [a_in, a_none, a_priv])
-            for (inq, anone, apriv), got in sorted(t.items()):
-                if anone and apriv:
-                    continue  # no alias: its name form is not read
-                want = inq and ((anone and ni) or (not anone and not apriv)) and ni and pk != "private Class"
-                key = f"{key0}::whole-module::import-names-module={inq},alias-none={anone},alias-private={apriv},public-name={ni},parent={pk}"
-                if got == {want}:
-                    col.ok("C04.REEXPORT-TABLE", key, repo.loc(VISITOR, n1), f"returns True: {want}")
-                else:
-                    col.bad("C04.REEXPORT-TABLE", key, repo.loc(VISITOR, n1), f"returns True: {sorted(got)}; reference {want}",
-                            f"module re-export (`import pkg.m [as alias]`): import names the module={inq}, no alias={anone}, alias private={apriv}, public name={ni}, parent {pk}: "
-                            f"the declaration is {'made' if True in got else 'not made'} public; it should {'be' if want else 'not be'}")
+    # the members of a module that is imported as a whole become public iff the name the import binds is public: the alias, or - without an alias - the
+    # module's own name (`from . import _utils` binds the private name `_utils`); evaluated on constants
+    for mname in ("utils", "_utils"):
+        for qn_form in ("name", "qname", "other"):
+            for alias in (None, "tools", "_tools"):
+                for ni in (True, False):
+                    for pk, pobj in parents.items():
+                        q = {"name": mname, "qname": f"pk.{mname}", "other": "pk.other"}[qn_form]
+                        qic = Obj("QualifiedImport", (("qualified_name", Const(q)), ("alias", Const(alias))))
+                        e = e1.clone()
+                        e.env.update({"not_internal": Const(ni), "parent": pobj, "module_name": Const(mname), "module_qname": Const(f"pk.{mname}")})
+                        outs_q = run_body(rit, n1, e, qic)
+                        got = {o.kind == "return" and o.value == Const(True) for o in outs_q}
+                        bound_public = not (alias if alias is not None else mname).startswith("_")
+                        want = qn_form != "other" and bound_public and ni and pk != "private Class"
+                        key = f"{key0}::whole-module::module={mname},import-names={qn_form},alias={alias},public-name={ni},parent={pk}"
+                        if got == {want}:
+                            col.ok("C04.REEXPORT-TABLE", key, repo.loc(VISITOR, n1), f"returns True: {want}")
+                        else:
+                            col.bad("C04.REEXPORT-TABLE", key, repo.loc(VISITOR, n1), f"returns True: {sorted(got)}; reference {want}",
+                                    f"module re-export (`from . import {mname}" + (f" as {alias}" if alias else "") + f"`), member with a {'public' if ni else 'private'} name below a {pk}: the member is "
+                                    f"{'made' if True in got else 'not made'} public; it should {'be' if want else 'not be'} - the import binds the name `{alias or mname}`"
+                                    + ("" if want or not (True in got) else f": `from . import {mname}` in an __init__.py publishes every public-named member of the private module {mname}"))
     # "the import names the declaration": a suffix test of the declaration's qualified name against the imported name, in any spelling
     # (plain, or with a separator prepended to both sides so that whole segments are compared)
     a_end = lambda k: k.startswith("truthy:.endswith(") and "<qname>" in k and "<Q>" in k  # noqa: E731
